@@ -1,14 +1,21 @@
 (* C08 - XML value encoding and decoding are inverse for every supported value.
    Full statement (for every supported value v in the domain D, and both settings of include_xmlns):
-       decode (read (xml_encode v)) = canon v       where canon only strips leading/trailing whitespace of text.
-   Proved below at full strength, through the model's own XML reader, for Boolean, the eight integer types (integers of
-   any size), Float/Double (any finite or infinite float, given CPython's float(repr(x)) = x), String and Guid (EVERY
-   character string without a carriage return), enumeration values, and - at tree level - for lists of decodable items.
-   C08_roundtrip_partial: the text-level theorem is NOT yet proved for DateTime, ByteString, LocalizedText, EUInformation,
-   Range, ExtensionObject and for lists at text level; for these the model is tied to the code by the correspondence run and
-   the property is decided on the implementation by the oracle. *)
+       decode (read (xml_encode v)) = canon v
+   where canon strips leading/trailing whitespace of String/Guid text, turns empty text into null, writes a DateTime as its UTC
+   instant, and (faithful to the code) maps NaN to null, an enumeration to its Int32 and a missing EUInformation locale to "en".
+   C08_roundtrip proves this at TEXT level, through the model's own XML reader, for ALL values of the domain by structural
+   induction: Boolean, the eight integer types (integers of any size), Float/Double (any float, given CPython's
+   float(repr(x)) = x as the table E), String and Guid (every character string), DateTime (naive or with ANY UTC offset; the
+   civil-date arithmetic of astimezone is proved for every day number by a sweep of the 400-year cycle), ByteString (every byte
+   string: base64 is proved inverse), LocalizedText, EUInformation, Range, ExtensionObject with a ByteString body, and lists of
+   any of these, nested to any depth.
+   The domain (clean, dom08) excludes exactly what the recorded findings describe: a carriage return in the written text
+   (C08-cr-normalised), identifiers/locales/bounds with markup characters spliced unescaped (C08-unescaped-markup), NodeId values
+   (C08-nodeid-bare-identifier), an EUInformation with an empty NamespaceUri (C08-eu-empty-uri), extension objects whose type id
+   is i=885/i=888 (C08-ext-reserved-typeid), locales the library's regular expression rejects, and lists whose items are not of
+   one class. The older per-type theorems are kept: they are stated without the domain predicate. *)
 From Coq Require Import String Ascii List Bool ZArith.
-Require Import PyStr PyInt Sexp Xml M_C09 M_C08 T_C08.
+Require Import PyStr PyInt Sexp Xml M_C09 M_C08 M_C08d T_C08 T_C08s.
 Import ListNotations.
 Open Scope char_scope.
 
@@ -49,6 +56,28 @@ Proof. exact decode_list. Qed.
 Theorem C08_float_nan_refuted : forall E b d, decode_text E (negb b) (encode b (VFloat d (Some (lit "nan")))) = Ok (VFloat d None).
 Proof. exact float_nan_refuted. Qed.
 
+(* ---- the general theorems (structure level) ---- *)
+Theorem C08_roundtrip : forall E v b, clean b v = true -> dom08 E v = true -> decode_text E (negb b) (encode b v) = Ok (canon v).
+Proof. exact roundtrip_general. Qed.
+(* xml_encode at text level and the element structure vtree (used by the writer model of C05-C07) describe the same document *)
+Theorem C08_text_is_vtree : forall E v b t, names_ok v = true -> xt (xa b) v = Some t -> has CR (encode b v) = false ->
+  exists n, vtree v = Some n /\ decode_text E (negb b) (encode b v) = decode E n.
+Proof. exact encode_read_as_vtree. Qed.
+Theorem C08_encode_is_spelling : forall v b t, xt (xa b) v = Some t -> encode b v = spell_treeq noq t.
+Proof. exact enc_spell. Qed.
+Theorem C08_base64 : forall b, b64dec (b64enc b) = Some b.
+Proof. exact b64_roundtrip. Qed.
+Theorem C08_datetime_text : forall d, dt_ok d = true -> parse_iso (iso_utc d) = Some (as_utc d).
+Proof. exact dt_ok_written. Qed.
+Theorem C08_civil_dates_valid : forall z, let '(y, m, d) := civil_from_days z in (1 <= m <= 12 /\ 1 <= d <= days_in y m)%Z.
+Proof. exact civil_valid. Qed.
+
+Print Assumptions C08_roundtrip.
+Print Assumptions C08_text_is_vtree.
+Print Assumptions C08_encode_is_spelling.
+Print Assumptions C08_base64.
+Print Assumptions C08_datetime_text.
+Print Assumptions C08_civil_dates_valid.
 Print Assumptions C08_xml_roundtrip.
 Print Assumptions C08_string.
 Print Assumptions C08_string_null.
